@@ -70,7 +70,8 @@ func buildNetHTTP(cs *caseState, sp godi.Provider, useChi bool) http.Handler {
 	}
 
 	var scopeMW, siblingMW func(http.Handler) http.Handler
-	var hCtrl, hUnreg, hFail http.HandlerFunc
+	var hCtrl, hUnreg, hFail, hT1, hT2 http.HandlerFunc
+	mChain := func(k *TCtrl, w http.ResponseWriter, r *http.Request) { look(r).onChain(k) }
 	if useChi {
 		var so []godichi.Option
 		if o.ErrH != ErrHDefault {
@@ -98,6 +99,7 @@ func buildNetHTTP(cs *caseState, sp godi.Provider, useChi bool) http.Handler {
 			ho = append(ho, godichi.WithPanicHandler(panicH), godichi.WithScopeErrorHandler(scopeErrH), godichi.WithResolutionErrorHandler(resErrH))
 		}
 		hCtrl, hUnreg, hFail = godichi.Handle(mCtrl, ho...), godichi.Handle(mUnreg, ho...), godichi.Handle(mFail, ho...)
+		hT1, hT2 = godichi.Handle(mChain, godichi.WithPanicRecovery(o.Recovery)), godichi.Handle(mChain, godichi.WithPanicRecovery(o.Recovery))
 	} else {
 		var so []godihttp.Option
 		if o.ErrH != ErrHDefault {
@@ -124,6 +126,7 @@ func buildNetHTTP(cs *caseState, sp godi.Provider, useChi bool) http.Handler {
 			ho = append(ho, godihttp.WithPanicHandler(panicH), godihttp.WithScopeErrorHandler(scopeErrH), godihttp.WithResolutionErrorHandler(resErrH))
 		}
 		hCtrl, hUnreg, hFail = godihttp.Handle(mCtrl, ho...), godihttp.Handle(mUnreg, ho...), godihttp.Handle(mFail, ho...)
+		hT1, hT2 = godihttp.Handle(mChain, godihttp.WithPanicRecovery(o.Recovery)), godihttp.Handle(mChain, godihttp.WithPanicRecovery(o.Recovery))
 	}
 
 	// route handler = probe (what does the handler see through the request context?) + the wrapped handler
@@ -141,7 +144,12 @@ func buildNetHTTP(cs *caseState, sp godi.Provider, useChi bool) http.Handler {
 	}
 
 	sMux := http.NewServeMux()
-	sMux.HandleFunc(routePath(RouteCtrl), route(hCtrl))
+	hMain := route(hCtrl)
+	sMux.HandleFunc(routePath(RouteCtrl), func(w http.ResponseWriter, r *http.Request) {
+		hT1(w, r)
+		hT2(w, r)
+		hMain(w, r)
+	})
 	sMux.HandleFunc(routePath(RoutePlain), route(nil))
 	sMux.HandleFunc(routePath(RouteUnreg), route(hUnreg))
 	sMux.HandleFunc(routePath(RouteFailCtor), route(hFail))
